@@ -56,7 +56,7 @@ def regen():
 def scan_forbidden():
     hits = []
     proj = [l.strip() for l in open(os.path.join(COQ, '_CoqProject')) if l.strip().endswith('.v')]
-    for f in [os.path.join(COQ, x) for x in proj] + [os.path.join(COQ, 'Extract.v')]:
+    for f in [os.path.join(COQ, x) for x in proj] + [os.path.join(COQ, 'Extract.v'), os.path.join(COQ, 'ExtractMem.v')]:
         txt = open(f).read()
         # strip comments
         txt2 = re.sub(r'\(\*.*?\*\)', lambda m: ' ' * len(m.group(0)), txt, flags=re.S)
@@ -275,10 +275,10 @@ def check_C13(tier, seed):
 # ----------------------------------------------------------------------------- T1-based properties
 T1_PROPS = {
     # pid: (coq target, blamed clauses, generator profiles, description)
-    'C02': dict(target='Properties_C02', clauses=['C02', 'HARNESS', 'CRASH', 'C17'], profiles=['grow', 'churn', 'mixed', 'resize', 'locked', 'workers']),
-    'C05': dict(target='Properties_C05', clauses=['C05'], profiles=['churn', 'resize', 'stream', 'mixed', 'locked', 'special', 'grow', 'stream']),
-    'C09': dict(target='Properties_C09', clauses=['C09'], profiles=['locked', 'locked', 'mixed', 'workers']),
-    'C10': dict(target='Properties_C10', clauses=['C10'], profiles=['resize', 'resize', 'mixed', 'grow']),
+    'C02': dict(target='Properties_C02', clauses=['C02', 'HARNESS', 'CRASH', 'C17'], profiles=['grow', 'churn', 'mixed', 'resize', 'locked', 'workers', 'workers_rebuild']),
+    'C05': dict(target='Properties_C05', clauses=['C05'], profiles=['churn', 'resize', 'stream', 'mixed', 'locked', 'special', 'grow', 'stream', 'workers_rebuild']),
+    'C09': dict(target='Properties_C09', clauses=['C09'], profiles=['locked', 'locked', 'mixed', 'workers', 'workers_rebuild']),
+    'C10': dict(target='Properties_C10', clauses=['C10'], profiles=['resize', 'resize', 'mixed', 'grow', 'workers_rebuild']),
     'C17': dict(target='Properties_C17', clauses=['C17'], profiles=['churn', 'grow', 'mixed']),
     'C08': dict(target='Properties_C08', clauses=['HARNESS', 'CRASH', 'LEAK'], profiles=['churn', 'grow', 'resize', 'special', 'locked'], kinds=[1]),
     'C11': dict(target='Properties_C11', clauses=['C11', 'C02', 'C05', 'HARNESS', 'CRASH', 'LEAK'], profiles=['special']),
@@ -378,9 +378,27 @@ def check_T1(pid, tier, seed):
                       gen_conc.gen_sweep_layout(crng.getrandbits(48), cc[0], cc[1]):
                 cjobs.append((cbins[cc], sc, 'dupsweep', os.path.join(BUILD, 'cases_' + pid), False))
         conc_res = t2.run_many(cjobs)
+    # C05 "across every event that rearranges the bookkeeping": a failed operation (throwing element constructor,
+    # allocation failure) must leave size() equal to the number of stored pairs - fault enumeration (tie T3)
+    fault_res = []
+    if pid == 'C05':
+        fcfgs = [t1.mkcfg(2, 2, 1, 1), t1.mkcfg(4, 2, 0), t1.mkcfg(3, 1, 1, 0)]
+        fbins = t1.build_harness(fcfgs)
+        frng = random.Random(seed * 13 + 5)
+        fjobs = []
+        for i in range(15 if tier == 'quick' else 300):
+            c = fcfgs[i % len(fcfgs)]
+            sc = gen.gen_script(frng.getrandbits(48), c, nops=frng.choice([30, 50]), poison=True, profile=frng.choice(['grow', 'churn', 'mixed', 'locked']))
+            fjobs.append((fbins[t1.cfg_name(c)], sc, t1.cfg_name(c), os.path.join(BUILD, 'cases_' + pid)))
+        with concurrent.futures.ThreadPoolExecutor(max_workers=16) as ex:
+            fault_res = list(ex.map(run_seq_faults, fjobs))
     mism = [r for r in res if r['status'] in ('mismatch', 'model_error', 'judge_error')]
     viol = []
     known_hits = {}
+    for r in fault_res:
+        for l in r['bad']:
+            if 'size=' in l and c07_sig(l) is None:
+                viol.append(dict(path=r['path'], status='fault', blames=[], detail='size() after a failed operation: ' + l[:500]))
     for r in res:
         kinds = blame_kinds(r)
         mine = [k for k in kinds if k in spec['clauses']]
@@ -437,7 +455,7 @@ def check_T1(pid, tier, seed):
                traces_validated_against_impl=len(okres),
                operations_judged=sum(r.get('judged', 0) for r in res),
                feature_counts=feats, corpus_cases=ncorpus, mismatches=len(mism),
-               concurrent_same_key_sweeps=len(conc_res),
+               concurrent_same_key_sweeps=len(conc_res), fault_positions_checked_for_size=sum(len(r['lines']) for r in fault_res),
                known_findings=sorted(known_hits.keys()), gen_changed=changed)
     write_evidence(pid, tier, seed, cov, time.time() - t0, violations, TRUSTED_BASE)
     shutil.rmtree(os.path.join(BUILD, 'cases_' + pid), ignore_errors=True) if not violations else None
@@ -736,7 +754,22 @@ def check_T2(pid, tier, seed):
         c = cfgs[i % len(cfgs)]
         for sc in gen_conc.gen_sweep(rng.getrandbits(48), c[0], c[1]) + (gen_conc.gen_sweep_layout(rng.getrandbits(48), c[0], c[1]) if i % 2 == 0 else []):
             jobs.append((bins[c], sc, 'sweep_s%d_l%d' % c, keep, False)); nsw += 1
+    # two-preemption sweeps over a constructed layout (check-then-act windows in the displacement code)
+    if pid in ('C01', 'C03'):
+        for i in range(1 if tier == 'quick' else 16):
+            c = cfgs[(i + 1) % len(cfgs)]
+            for sc in gen_conc.gen_sweep2_layout(rng.getrandbits(48), c[0], c[1]):
+                jobs.append((bins[c], sc, 'sweep2_s%d_l%d' % c, keep, False)); nsw += 1
+    # data accesses against the happens-before model: C03 (race clause) and C01 (no stale observation)
+    os.environ['VERIF_T2_MEM'] = '1' if pid in ('C03', 'C01') else '0'
     res = t2.run_many(jobs)
+    # C06 "on creation the locked_table exposes every stored element (pending deferred migration is finished
+    # first) ... hands it back intact": sequential locked-section scripts (with and without helper threads)
+    # against the model and the acceptor
+    seq_res = []
+    if pid == 'C06':
+        scfgs = [c for c in (t1.QUICK_CFGS if tier == 'quick' else t1.THOROUGH_CFGS)]
+        seq_res, _, _ = t1_run(pid, tier, seed + 17, scfgs, 90 if tier == 'quick' else 2400, ['locked', 'workers', 'locked', 'workers_rebuild'])
     # directed search: for runs whose trace is not a run of the model, schedules that preempt the
     # offending thread just before its first unexpected event and let the others run
     djobs = []
@@ -768,6 +801,11 @@ def check_T2(pid, tier, seed):
                 else: viol.append((r, tag, text))
         if not r.get('replayed', True): unreplayed.append(r)
         if r.get('confirmed') is False: unconfirmed.append(r)
+    for r in seq_res:
+        kinds = blame_kinds(r)
+        if kinds & {'C02', 'C09', 'C05', 'CRASH'}:
+            r2 = dict(r); r2['problems'] = [('C06', 'locked-section script: %s %s' % (r.get('blames', [])[:3], json.dumps(r.get('detail'))[:300]))]
+            viol.append((r2, 'C06', r2['problems'][0][1]))
     violations = 0
     for sig, f in known_hits.items():
         log('KNOWN-FINDING: property=%s %s' % (pid, f['text']))
@@ -796,7 +834,8 @@ def check_T2(pid, tier, seed):
                traces_validated_against_impl=len([r for r in res if r.get('replayed')]),
                events_replayed=sum(r.get('nevents', 0) for r in res), context_switches=sum(r.get('switches', 0) for r in res),
                linearizable_histories=len([r for r in res if r.get('linearizable')]), corpus_cases=ncorpus,
-               directed_schedules=len(dres), sweep_schedules=nsw,
+               directed_schedules=len(dres), sweep_schedules=nsw, sequential_locked_section_scripts=len(seq_res),
+               runs_checked_against_hb_model=len([r for r in res if r.get('mem')]), bucket_accesses_checked=sum((r.get('mem') or {}).get('naccess', 0) for r in res),
                known_findings=sorted(known_hits.keys()), gen_changed=changed)
     write_evidence(pid, tier, seed, cov, time.time() - t0, violations, TRUSTED_BASE)
     if not violations: shutil.rmtree(keep, ignore_errors=True)
